@@ -1,6 +1,8 @@
 import BpProofs.Gen.SrcCodec
 import BpProofs.Varint
 import BpProofs.Fields
+import BpModel.Dump
+import BpModel.Len
 /-
   THE TIE BETWEEN THE TRANSLATED SOURCE AND THE HAND-WRITTEN MODEL.
 
@@ -493,6 +495,9 @@ theorem key_or (num w : Nat) (hw : w < 8) : Py.or (Py.shl (num : Int) 3) (w : In
 theorem key_shl (num : Nat) : Py.shl (num : Int) 3 = ((num * 8 : Nat) : Int) := by
   have := shl_nat num 3; simpa using this
 
+theorem key_or' (num w : Nat) (hw : w < 8) : Py.or ((num * 8 : Nat) : Int) (w : Int) = ((num * 8 + w : Nat) : Int) := by
+  rw [← key_shl, key_or num w hw]
+
 theorem serialize_key_varint_eq (num fuel : Nat) (hf : num * 8 + 2 ^ 64 < fuel) :
     Src.serialize_key_varint fuel (num : Int) = Py.ofR (dumpVarint ((num * 8 : Nat) : Int)) := by
   unfold Src.serialize_key_varint
@@ -570,6 +575,88 @@ theorem len_lendelim_eq (num fuel : Nat) (size : Int) :
     cases sizeVarint size with
     | error e => rfl
     | ok l => rfl
+
+/-- **the whole framing decision of `_serialize_single`** (everything after the call of
+    `_preprocess_single`) is the model's `frame`: which key, whether a length prefix, and the
+    emission test `len(value) or serialize_empty or wraps` of length-delimited fields -/
+theorem serialize_frame_eq (num fuel : Nat) (t : PType) (value : Bytes) (se wraps : Bool)
+    (hf : num * 8 + 5 + value.length + 2 ^ 64 < fuel) :
+    Src.serialize_frame fuel (num : Int) t value se wraps = Py.ofR (frame num t value se wraps) := by
+  unfold Src.serialize_frame frame
+  have e5 : ((5 : Int)) = ((5 : Nat) : Int) := rfl
+  have e1 : ((1 : Int)) = ((1 : Nat) : Int) := rfl
+  have e2 : ((2 : Int)) = ((2 : Nat) : Int) := rfl
+  have hl : Py.len value = ((value.length : Nat) : Int) := rfl
+  have hne : (decide (((value.length : Nat) : Int) ≠ 0)) = (value.length != 0) := by
+    by_cases h : value.length = 0 <;> simp [h]
+  simp only [key_shl, e5, e1, e2, key_or' num 5 (by decide), key_or' num 1 (by decide), key_or' num 2 (by decide), hne, hl,
+    List.nil_append]
+  by_cases h1 : Gen.wireVarintTypes.contains t = true
+  · simp only [h1, if_true]
+    rw [encode_varint_eq _ _ (by rw [Int.natAbs_natCast]; omega)]
+    cases dumpVarint ((num * 8 : Nat) : Int) <;> rfl
+  · simp only [h1, Bool.false_eq_true, if_false]
+    by_cases h2 : Gen.wireFixed32Types.contains t = true
+    · simp only [h2, if_true]
+      rw [encode_varint_eq _ _ (by rw [Int.natAbs_natCast]; omega)]
+      cases dumpVarint ((num * 8 + 5 : Nat) : Int) <;> rfl
+    · simp only [h2, Bool.false_eq_true, if_false]
+      by_cases h3 : Gen.wireFixed64Types.contains t = true
+      · simp only [h3, if_true]
+        rw [encode_varint_eq _ _ (by rw [Int.natAbs_natCast]; omega)]
+        cases dumpVarint ((num * 8 + 1 : Nat) : Int) <;> rfl
+      · simp only [h3, Bool.false_eq_true, if_false]
+        by_cases h4 : Gen.wireLenDelimTypes.contains t = true
+        · simp only [h4, if_true]
+          by_cases h5 : (value.length != 0 || se || wraps) = true
+          · simp only [h5, if_true]
+            rw [encode_varint_eq _ _ (by rw [Int.natAbs_natCast]; omega),
+              encode_varint_eq _ _ (by rw [Int.natAbs_natCast]; omega)]
+            cases dumpVarint ((num * 8 + 2 : Nat) : Int) with
+            | error e => rfl
+            | ok k =>
+              cases dumpVarint ((value.length : Nat) : Int) with
+              | error e => rfl
+              | ok l => simp [Py.ofR, Res.bind, Except.bind]
+          · simp only [h5, Bool.false_eq_true, if_false]; rfl
+        · simp only [h4, Bool.false_eq_true, if_false]; rfl
+
+/-- **the whole framing decision of `_len_single`** is the model's `lenFrame` -/
+theorem len_frame_eq (num fuel : Nat) (t : PType) (size : Nat) (se wraps : Bool) :
+    Src.len_frame fuel (num : Int) t (size : Int) se wraps =
+      Py.ofR ((lenFrame num t size se wraps).map fun (n : Nat) => (n : Int)) := by
+  unfold Src.len_frame lenFrame
+  have e5 : ((5 : Int)) = ((5 : Nat) : Int) := rfl
+  have e1 : ((1 : Int)) = ((1 : Nat) : Int) := rfl
+  have e2 : ((2 : Int)) = ((2 : Nat) : Int) := rfl
+  have hne : (decide ((size : Int) ≠ 0)) = (size != 0) := by
+    by_cases h : size = 0 <;> simp [h]
+  simp only [key_shl, e5, e1, e2, key_or' num 5 (by decide), key_or' num 1 (by decide), key_or' num 2 (by decide), hne,
+    size_varint_eq]
+  by_cases h1 : Gen.wireVarintTypes.contains t = true
+  · simp only [h1, if_true]
+    cases sizeVarint ((num * 8 : Nat) : Int) <;> simp [Py.ofR, Res.bind, Except.bind, Except.map]
+  · simp only [h1, Bool.false_eq_true, if_false]
+    by_cases h2 : Gen.wireFixed32Types.contains t = true
+    · simp only [h2, if_true]
+      cases sizeVarint ((num * 8 + 5 : Nat) : Int) <;> simp [Py.ofR, Res.bind, Except.bind, Except.map]
+    · simp only [h2, Bool.false_eq_true, if_false]
+      by_cases h3 : Gen.wireFixed64Types.contains t = true
+      · simp only [h3, if_true]
+        cases sizeVarint ((num * 8 + 1 : Nat) : Int) <;> simp [Py.ofR, Res.bind, Except.bind, Except.map]
+      · simp only [h3, Bool.false_eq_true, if_false]
+        by_cases h4 : Gen.wireLenDelimTypes.contains t = true
+        · simp only [h4, if_true]
+          by_cases h5 : (size != 0 || se || wraps) = true
+          · simp only [h5, if_true]
+            cases sizeVarint ((num * 8 + 2 : Nat) : Int) with
+            | error e => simp [Py.ofR, Res.bind, Except.bind, Except.map]
+            | ok k =>
+              cases sizeVarint ((size : Nat) : Int) with
+              | error e => simp [Py.ofR, Res.bind, Except.bind, Except.map]
+              | ok l => simp [Py.ofR, Res.bind, Except.bind, Except.map]
+          · simp only [h5, Bool.false_eq_true, if_false]; simp [Py.ofR, Except.map]
+        · simp only [h4, Bool.false_eq_true, if_false]; simp [Py.ofR, Except.map]
 
 /-! ### `_read_exact` and `load_fields` (the framing loop) -/
 open Gen
